@@ -187,3 +187,59 @@ def step_equivariance(K, dim, sim, g, sigma, mirror, with_forcing):
         k2, sg = gg.comp_map(k)
         vb = K.value(B.velocity_field, (k2,) + c2).subst(mapping)
         K.ensures_eq(f"velocity_commutes_with_the_relabelling[{k}]", vb, sg * K.value(A.velocity_field, (k,) + c))
+
+
+@unit("greens_function_equivariance", props=("C14",), kernels=False, native_check=True,
+      configs=[dict(dim=2, sigma=(1, 0)), dict(dim=3, sigma=(1, 2, 0)), dict(dim=3, sigma=(0, 2, 1))],
+      assumes=("FFTW contract (the transform of the relabelled kernel is the relabelled transform)",))
+def greens_function_equivariance(K, dim, sigma):
+    """the Green's-function buffer of the REAL unbounded solver built for the relabelled grid is the relabelled
+    buffer (same spacing): G'[g.j] == G[j] at every index of the doubled grid -- the solver treats no axis specially."""
+    from .c_poisson import FFTStub, SOLVER_MODS, solver_modules
+    gg = G(sigma, (0,) * dim)
+    if K.mode != "sym":
+        # bounded native stand-in (real pyfftw): the solve of the relabelled right-hand side on the relabelled grid is
+        # the relabelled solution
+        import numpy as np
+        n = [K.ext(nm, lo=3) for nm in ("nz", "ny", "nx")[3 - dim:]]
+        n = [n[i] + i for i in range(dim)]  # pairwise different extents
+        n2 = list(gg.shape(n))
+        dxv = K.real("dx", pos=True)
+        cls = K.repo(f"{SOLVER_MODS[dim]}:UnboundedPoissonSolverPYFFTW{dim}D")
+        a = cls(x_range=dxv * n[-1], num_threads=1, real_t=np.float64, **{f"grid_size_{ax}": n[i] for i, ax in enumerate("zyx"[3 - dim:])})
+        b = cls(x_range=dxv * n2[-1], num_threads=1, real_t=np.float64, **{f"grid_size_{ax}": n2[i] for i, ax in enumerate("zyx"[3 - dim:])})
+        rhs = K.field("rhs_field", n)
+        perm = [0] * dim
+        for ax in range(dim):
+            perm[sigma[ax]] = ax
+        rhs2 = np.ascontiguousarray(np.transpose(rhs, perm))
+        ua, ub = np.zeros(n), np.zeros(n2)
+        a.solve(solution_field=ua, rhs_field=rhs)
+        b.solve(solution_field=ub, rhs_field=rhs2)
+        c = K.cell(n)
+        K.ensures_eq("solution_commutes_with_the_relabelling", float(ub[gg.cell(c, n)]), float(ua[c]))
+        return None
+    from svx.symnp import SymReal64
+
+    names = ("nz", "ny", "nx")[3 - dim:]
+    n = [K.ext(nm, lo=1) for nm in names]
+    n2 = list(gg.shape(n))
+    L = K.real("x_range", pos=True)
+    dx = L / n[-1]
+    with solver_modules(dim):
+        cls = K.repo(f"{SOLVER_MODS[dim]}:UnboundedPoissonSolverPYFFTW{dim}D")
+        a = cls(x_range=L, num_threads=1, real_t=SymReal64, **{f"grid_size_{ax}": n[i] for i, ax in enumerate("zyx"[3 - dim:])})
+        Ga = FFTStub.last.forward[0]
+        b = cls(x_range=dx * n2[-1], num_threads=1, real_t=SymReal64, **{f"grid_size_{ax}": n2[i] for i, ax in enumerate("zyx"[3 - dim:])})
+        Gb = FFTStub.last.forward[0]
+    K.ensures_eq("same_spacing", b.dx, a.dx)
+    j = K.cell([2 * x for x in n], name="g")
+    j2 = [None] * dim
+    for ax in range(dim):
+        j2[sigma[ax]] = j[ax]
+    from svx.contract import and_, not_
+    origin = and_(*[j[ax] == 0 for ax in range(dim)])
+    for _ in K.case(not_(origin)):
+        K.ensures_eq("kernel_commutes_with_the_relabelling", Gb.at(tuple(j2)), Ga.at(j))
+    for _ in K.case(origin):
+        K.ensures_eq("self_cell_value_commutes_with_the_relabelling", Gb.at(tuple(j2)), Ga.at(j))
